@@ -27,6 +27,7 @@ var (
 	PartitionNotFoundErr     error = errors.New("Partition not found")
 	PartitionNotOnNodeErr    error = errors.New("Partition is not loaded on the node")
 	BatchRequestTooLargerErr error = errors.New("Batch request too large")
+	InvalidItemIdErr         error = errors.New("Item id must be exactly 16 bytes long")
 )
 
 type partitionBatchResult map[uuid.UUID]error
@@ -236,9 +237,41 @@ func (this *Dataset) Remove(ctx context.Context, id uuid.UUID) error {
 	return this.getPartitionForId(id).remove(ctx, id)
 }
 
+// Item ids of a batch are parsed when the batch is routed and again when it is
+// applied on every replica, where a malformed id is fatal. Refuse such batches.
+func (this *Dataset) checkBatchItemIds(items []*pb.BatchItem) error {
+	for _, item := range items {
+		if len(item.GetId()) != uuid.Size {
+			return InvalidItemIdErr
+		}
+	}
+	return nil
+}
+
+func (this *Dataset) checkBatchItems(items []*pb.BatchItem, withValues bool) error {
+	if len(items) > maxBatchRequestSize {
+		return BatchRequestTooLargerErr
+	}
+	if err := this.checkBatchItemIds(items); err != nil {
+		return err
+	}
+	if withValues {
+		for _, item := range items {
+			value := math.Vector(item.GetValue())
+			if err := this.checkDimension(&value); err != nil {
+				return err
+			}
+		}
+	}
+	return nil
+}
+
 func (this *Dataset) BatchInsert(ctx context.Context, items []*pb.BatchItem) (map[uuid.UUID]error, error) {
 	if len(items) > maxBatchRequestSize {
 		return nil, BatchRequestTooLargerErr
+	}
+	if err := this.checkBatchItemIds(items); err != nil {
+		return nil, err
 	}
 
 	errors := make(map[uuid.UUID]error)
@@ -271,6 +304,9 @@ func (this *Dataset) BatchInsert(ctx context.Context, items []*pb.BatchItem) (ma
 }
 
 func (this *Dataset) PartitionBatchInsert(ctx context.Context, partitionId uuid.UUID, items []*pb.BatchItem) (map[uuid.UUID]error, error) {
+	if err := this.checkBatchItems(items, true); err != nil {
+		return nil, err
+	}
 	partition, err := this.getPartition(partitionId)
 	if err != nil {
 		return nil, err
@@ -282,6 +318,9 @@ func (this *Dataset) PartitionBatchInsert(ctx context.Context, partitionId uuid.
 func (this *Dataset) BatchUpdate(ctx context.Context, items []*pb.BatchItem) (map[uuid.UUID]error, error) {
 	if len(items) > maxBatchRequestSize {
 		return nil, BatchRequestTooLargerErr
+	}
+	if err := this.checkBatchItemIds(items); err != nil {
+		return nil, err
 	}
 
 	errors := make(map[uuid.UUID]error)
@@ -314,6 +353,9 @@ func (this *Dataset) BatchUpdate(ctx context.Context, items []*pb.BatchItem) (ma
 }
 
 func (this *Dataset) PartitionBatchUpdate(ctx context.Context, partitionId uuid.UUID, items []*pb.BatchItem) (map[uuid.UUID]error, error) {
+	if err := this.checkBatchItems(items, true); err != nil {
+		return nil, err
+	}
 	partition, err := this.getPartition(partitionId)
 	if err != nil {
 		return nil, err
@@ -325,6 +367,9 @@ func (this *Dataset) PartitionBatchUpdate(ctx context.Context, partitionId uuid.
 func (this *Dataset) BatchRemove(ctx context.Context, items []*pb.BatchItem) (map[uuid.UUID]error, error) {
 	if len(items) > maxBatchRequestSize {
 		return nil, BatchRequestTooLargerErr
+	}
+	if err := this.checkBatchItemIds(items); err != nil {
+		return nil, err
 	}
 
 	return this.partitionsBatchRequest(
@@ -339,6 +384,9 @@ func (this *Dataset) BatchRemove(ctx context.Context, items []*pb.BatchItem) (ma
 }
 
 func (this *Dataset) PartitionBatchRemove(ctx context.Context, partitionId uuid.UUID, items []*pb.BatchItem) (map[uuid.UUID]error, error) {
+	if err := this.checkBatchItems(items, false); err != nil {
+		return nil, err
+	}
 	partition, err := this.getPartition(partitionId)
 	if err != nil {
 		return nil, err
